@@ -11,6 +11,16 @@ pub fn guard() { STEPS.with(|s| { s.set(s.get() + 1); if s.get() > 5000 { s.set(
 pub fn guard_reset() { STEPS.with(|s| s.set(0)); }
 pub fn to_u16(x: u8) -> u16 { (x as u16) * 3 + 1 }
 pub fn idx_u16(i: usize) -> u16 { (i as u16) * 7 + 2 }
+/// function-valued *expressions* in closure position: std evaluates the expression once (also for length 0); a second
+/// evaluation is observable twice over - through the counter and because it returns a different function
+thread_local! { pub static PICKS: std::cell::Cell<u32> = const { std::cell::Cell::new(0) }; }
+pub fn picks_reset() { PICKS.with(|c| c.set(0)); }
+pub fn picks() -> u32 { PICKS.with(|c| c.get()) }
+fn bump() -> u32 { PICKS.with(|c| { c.set(c.get() + 1); c.get() }) }
+pub fn to_u16_b(x: u8) -> u16 { (x as u16) * 100 }
+pub fn idx_u16_b(i: usize) -> u16 { (i as u16) * 100 }
+pub fn pick_u16() -> fn(u8) -> u16 { if bump() == 1 { to_u16 } else { to_u16_b } }
+pub fn pick_idx() -> fn(usize) -> u16 { if bump() == 1 { idx_u16 } else { idx_u16_b } }
 /// classify an outcome: the macro either yields an array ("array [...]") or not
 pub fn cls(k: String) -> String { if k.starts_with("array") { k } else { "no array".to_string() } }
 '''
@@ -30,8 +40,11 @@ def programs(tier):
     maxn = {"quick": 3, "thorough": 4}[tier]
     P = []  # (name, hostile: bool, body lines)
 
-    def prog(name, hostile, n, out_ty, setup, call, std_expr):
-        """call: the macro invocation text with {BODY_PRE} placeholder already substituted"""
+    def prog(name, hostile, n, out_ty, setup, call, std_expr, extra=None):
+        """call: the macro invocation text with {BODY_PRE} placeholder already substituted;
+        extra: an expression observed after the call on both sides (rendered behind the array)"""
+        ex = f", {extra}" if extra else ""
+        exf = " extra={:?}" if extra else ""
         body = [
             f"fn inner() -> Result<[{out_ty}; {n}], &'static str> {{",
             f"    {setup}",
@@ -44,14 +57,14 @@ def programs(tier):
             "    #[allow(unreachable_code)] Err(\"left the labelled block\")",
             "}",
             "guard_reset();",
-            "let k = cu(|| match inner() { Ok(a) => format!(\"array {:?}\", a), Err(e) => format!(\"exit: {e}\") });",
+            f"let k = cu(|| match inner() {{ Ok(a) => format!(\"array {{:?}}{exf}\", a{ex}), Err(e) => format!(\"exit: {{e}}\") }});",
         ]
         if hostile:
             # allowed: no array at all, or exactly std's (fully initialised) array - e.g. a one-off `continue` that re-runs the element
             body.append(f"let s = {{ {setup} format!(\"array {{:?}}\", {std_expr}) }};")
             body.append(f"out.push(({e3_js(name)}.to_string(), if k == s {{ \"no array\".to_string() }} else {{ cls(k) }}, \"no array\".to_string()));")
         else:
-            body.append(f"let s = {{ {setup} format!(\"array {{:?}}\", {std_expr}) }};")
+            body.append(f"let s = {{ {setup} let a = {std_expr}; format!(\"array {{:?}}{exf}\", a{ex}) }};")
             body.append(f"out.push(({e3_js(name)}.to_string(), k, s));")
         P.append((name, hostile, body))
 
@@ -107,6 +120,17 @@ def programs(tier):
         prog(f"array::map_!([u8; {n}], path)", False, n, "u16", f"let input: [u8; {n}] = [{vals}];", "konst::array::map_!(input, to_u16)", "input.map(to_u16)")
         prog(f"array::from_fn!(path) len {n}", False, n, "u16", "", "konst::array::from_fn!(idx_u16)", f"core::array::from_fn::<u16, {n}, _>(idx_u16)")
         prog(f"array::from_fn_!(path) len {n}", False, n, "u16", "", "konst::array::from_fn_!(idx_u16)", f"core::array::from_fn::<u16, {n}, _>(idx_u16)")
+    for n in range(0, maxn + 1):
+        vals = ", ".join(str(i + 1) for i in range(n))
+        # a function-valued expression is evaluated exactly once
+        prog(f"array::map!([u8; {n}], function-valued expression)", False, n, "u16", f"picks_reset(); let input: [u8; {n}] = [{vals}];", "konst::array::map!(input, pick_u16())", "input.map(pick_u16())", extra="picks()")
+        prog(f"array::map_!([u8; {n}], function-valued expression)", False, n, "u16", f"picks_reset(); let input: [u8; {n}] = [{vals}];", "konst::array::map_!(input, pick_u16())", "input.map(pick_u16())", extra="picks()")
+        for mac in ("from_fn!", "from_fn_!"):
+            prog(f"array::{mac}(function-valued expression) len {n}", False, n, "u16", "picks_reset();", f"konst::array::{mac}(pick_idx())", f"core::array::from_fn::<u16, {n}, _>(pick_idx())", extra="picks()")
+            # the index handed to the closure is a usize even when the closure body does not pin its type
+            for bname, body in [("!i >> 1", "(!i >> 1) as u64"), ("(i << 31) | i", "((i << 31) | i) as u64"), ("size_of_val(&i)", "core::mem::size_of_val(&i) as u64"), ("i.wrapping_sub(1) / 3", "(i.wrapping_sub(1) / 3) as u64"), ("i.count_zeros()", "i.count_zeros() as u64")]:
+                prog(f"array::{mac}(|i| {bname}) len {n} (index type)", False, n, "u64", "", f"konst::array::{mac}(|i| {body})", f"core::array::from_fn::<u64, {n}, _>(|i| {body})")
+                prog(f"array::{mac}([u64; {n}] => |i| {bname}) (index type)", False, n, "u64", "", f"konst::array::{mac}([u64; {n}] => |i| {body})", f"core::array::from_fn::<u64, {n}, _>(|i| {body})")
     # ---------- collect_const! with hostile closures: must be rejected, or yield only produced values
     for n in range(0, maxn + 1):
         vals = ", ".join(str(i + 1) for i in range(n))
